@@ -146,23 +146,27 @@ theorem valScalar_sound (env : Env) (strict : Bool) (sc : Scalar) (v r : CVal)
     all_goals (try (simp at h; done))
     case date.isFalse => simp at h; exact ⟨_, _, h.symm⟩
     case int.isFalse =>
-      split at h
-      · simp at h; exact ⟨_, _, h.symm⟩
-      · simp [unsupported] at h
+      simp at h
+      obtain ⟨a, b, _, hr⟩ := h
+      exact ⟨a, b, hr.symm⟩
     case float.isFalse =>
       rename_i t integral _
       cases t with
-      | none => simp [unsupported] at h
+      | none => simp at h
       | some i =>
         simp only at h
         split at h
-        · simp at h; exact ⟨_, _, h.symm⟩
+        · simp at h
+          obtain ⟨a, b, _, hr⟩ := h
+          exact ⟨a, b, hr.symm⟩
         · simp [unsupported] at h
     case str.isFalse =>
       rename_i s _
       split at h
       · split at h
-        · simp at h; exact ⟨_, _, h.symm⟩
+        · simp at h
+          obtain ⟨a, b, _, hr⟩ := h
+          exact ⟨a, b, hr.symm⟩
         · simp [unsupported] at h
       · cases hq : pydDatetime s with
         | error e => simp [hq, bind, Except.bind] at h
@@ -188,9 +192,7 @@ theorem valScalar_sound (env : Env) (strict : Bool) (sc : Scalar) (v r : CVal)
     case str s =>
       split at h
       · simp at h
-      · split at h
-        · simp at h; exact ⟨s, h.symm⟩
-        · simp [unsupported] at h
+      · simp at h; exact ⟨_, h.symm⟩
   | algByName =>
     cases v <;> simp only [valScalar, pure, Except.pure, err] at h
     all_goals (try (simp at h; done))
